@@ -182,8 +182,16 @@ def r6_axes_agreement(ctx):
   c17.r9_rank_fix(ctx, R)
   rd = ctx.repo.func(f'{shared.MMU}:_get_reduce_dims')
   ctx.instance(R)
-  src = defuse.norm(rd.node)
-  ctx.check(R, 'range(len(' in src and '!=' in src, rd.node, rd, 'reduce dims', 'reduce dims must be every axis except the quantized one')
+  it_ = tables.interp(ctx)
+  for qd, shape in ((None, [2, 3]), (0, [2, 3]), (1, [2, 3]), (0, [4]), (2, [2, 3, 4, 5]), (3, [2, 3, 4, 5])):
+    outs = it_.outcomes(rd, [qd, list(shape)])
+    want = None if qd is None else tuple(a for a in range(len(shape)) if a != qd)
+    got = outs[0].value if len(outs) == 1 and outs[0].kind == 'return' else None
+    got = tuple(got) if isinstance(got, (list, tuple)) else got
+    if len(outs) != 1 or outs[0].kind != 'return':
+      ctx.check(R, False, rd.node, rd, f'quantized dimension {qd}, shape {shape}', f'not decided: {[o.short()[:80] for o in outs]}')
+      continue
+    ctx.check(R, got == want, rd.node, rd, f'quantized dimension {qd}, shape {shape} -> {got!r}', f'reduce dims must be every axis except the quantized one: {want!r}')
 
 
 def r7_quantize_formula(ctx):
